@@ -268,7 +268,7 @@ def heat_worker(job):
                 out.append((lab, x, y))
         return out
     return equiv.equiv_worker(job, ra, rb, fp_prefix="C12/heat_after_hyd", replay_kind="heat", cells_fn=cells,
-                              compare_systems=False)
+                              compare_systems="heat")
 
 
 def replay_heat(rs):
